@@ -422,17 +422,22 @@ fn main() {
     }
     let stdin = std::io::stdin();
     let lines: Vec<String> = stdin.lock().lines().map(|l| l.unwrap()).collect();
-    let mut sink: Box<dyn IoWrite> = match &out_path {
+    let mut sink: Box<dyn IoWrite + Send> = match &out_path {
         Some(p) => Box::new(std::io::BufWriter::new(std::fs::File::create(p).unwrap())),
         None => Box::new(std::io::BufWriter::new(std::io::stdout())),
     };
     if threads == 0 {
-        for l in &lines {
-            let r = run_line(l);
-            // flush per line so that a later abort does not lose completed results
-            writeln!(sink, "{}", r).unwrap();
-            sink.flush().unwrap();
-        }
+        // the cases run on one spawned thread with Rust's default stack (2 MiB): what a library user's worker thread has,
+        // not the 8 MiB of a main thread
+        let h = std::thread::spawn(move || {
+            for l in &lines {
+                let r = run_line(l);
+                // flush per line so that a later abort does not lose completed results
+                writeln!(sink, "{}", r).unwrap();
+                sink.flush().unwrap();
+            }
+        });
+        let _ = h.join();
         return;
     }
     // purity mode: sequential pass, then the same cases from many threads in
